@@ -11,6 +11,7 @@ import (
 	"path/filepath"
 	"strconv"
 	"strings"
+	"text/template"
 	"time"
 )
 
@@ -384,4 +385,69 @@ func runReplay(w *World, pkgPath, src, scratch string) (verdict, output string) 
 		output = output[:6000] + "\n…"
 	}
 	return
+}
+
+// ---------- template-driven replay (methods, interface doubles) ----------
+
+// templateReplay fills /verif/replaytmpl/<name>.go.tmpl with the model's values of the contract's
+// "replay val" expressions and returns the test source.
+func (e *Enc) templateReplay(o *Oblig, scratch string) (src string, vals map[string]interface{}, why string) {
+	if e.fc == nil || e.fc.ReplayTmpl == "" {
+		return "", nil, "no replay template"
+	}
+	var names []string
+	var terms []Term
+	for _, rv := range e.fc.ReplayVals {
+		sv, ok := e.replayTerm[rv.Name]
+		if !ok {
+			continue
+		}
+		names = append(names, rv.Name)
+		terms = append(terms, sv.T)
+	}
+	if len(terms) == 0 {
+		return "", nil, "no replay values"
+	}
+	// small models first: bound every integer replay value
+	var small []Term
+	for i, n := range names {
+		if e.replayTerm[n].Sort == "Int" {
+			small = append(small, tLe(terms[i], "4096"), tLe("(- 4096)", terms[i]))
+		}
+	}
+	tag := sanitize(o.Name)
+	st, got, raw := runZ3Values(e.qfQuery(o, small, terms), scratch, tag+"_t1", 5)
+	if st != "sat" {
+		st, got, raw = runZ3Values(e.qfQuery(o, nil, terms), scratch, tag+"_t2", 10)
+	}
+	if st != "sat" {
+		return "", nil, "quantifier-free weakening: " + firstLines(raw, 2)
+	}
+	vals = map[string]interface{}{}
+	for i, n := range names {
+		v := got[parseSx(terms[i]).String()]
+		switch e.replayTerm[n].Sort {
+		case "Bool":
+			vals[n] = v == "true"
+		default:
+			iv, _ := smtIntValue(v)
+			vals[n] = iv
+		}
+	}
+	vals["Label"] = o.Label
+	vals["Kind"] = o.Kind
+	vals["Obligation"] = o.Name
+	tb, err := os.ReadFile(filepath.Join(e.W.verif, "replaytmpl", e.fc.ReplayTmpl+".go.tmpl"))
+	if err != nil {
+		return "", vals, "template missing: " + err.Error()
+	}
+	t, err := template.New("replay").Parse(string(tb))
+	if err != nil {
+		return "", vals, "template does not parse: " + err.Error()
+	}
+	var out bytes.Buffer
+	if err := t.Execute(&out, vals); err != nil {
+		return "", vals, "template failed: " + err.Error()
+	}
+	return out.String(), vals, ""
 }
